@@ -17,14 +17,33 @@ import (
 	"verifharness/hlib"
 )
 
-var namePool = []string{"a", "b", "c", "id", "x y", "Col", "ä", "q\"q", "t`t", "a,b", "名", "$x", "", "'q'", "\"quoted\""}
-var goodNames = []string{"a", "b", "c", "id", "x y", "Col", "ä", "q\"q", "t`t", "a,b", "名", "n1", "n2"}
-var tablePool = []string{"t", "my table", "T\"x", "sch.tab", "", "täb"}
+var namePool = []string{"a", "b", "c", "id", "discount_%", "vat%", "%d", "100%s", "x y", "Col", "ä", "q\"q", "t`t", "a,b", "名", "$x", "", "'q'", "\"quoted\""}
+var goodNames = []string{"a", "b", "c", "id", "discount_%", "vat%", "%d", "100%s", "x y", "Col", "ä", "q\"q", "t`t", "a,b", "名", "n1", "n2"}
+var tablePool = []string{"t", "my table", "t%v", "50%", "T\"x", "sch.tab", "", "täb"}
 var escPool = []rune{0, '"', '`', '\'', '[', 0x20AC, 0x1F600, -1, 0xD800, 0x110000}
 var strPool = []string{"", "a", "b", "abc", "x y", "ä", "NULL", "1.5", "it's", "\"", "a\x00b"}
 var intPool = []int{0, 1, -1, 2, 7, 42, math.MaxInt64, math.MinInt64, 1 << 53}
 var floatPool = []float64{0, math.Copysign(0, -1), 1.5, -2.25, 1e300, 5e-324, math.Inf(1), math.Inf(-1), math.NaN(),
-	math.Float64frombits(0x7FF8000000000000), math.Float64frombits(0xFFF0000000000001), 3.14159, 1e17, 123456.789}
+	math.Float64frombits(0x7FF8000000000000), math.Float64frombits(0xFFF0000000000001), 3.14159, 1e17, 123456.789,
+	1.0 / 3e6, 1.0 / 3, 1e-9 / 7, 0.001234567890123, -2.0 / 3e9, 8.5e-3, 123456789.123456789}
+
+// precisions: the usual few digits, and values at and beyond the number of significant digits of a float64
+var precPool = []int{1, 2, 3, 1, 2, 6, 12, 15, 16, 17, 18, 19, 20, 25, 308, 400}
+
+// refFixed is the harness's own transcription (standard library only) of what internal/math/float.Fixed computes:
+// num scaled by 10^precision, rounded half away from zero through an int, scaled back; values that have no
+// fractional digits left at that precision (and NaN, infinities) are returned as they are.  The oracle table the
+// Coq model receives is built from it, and the library's function is compared with it on every entry.
+func refFixed(num float64, precision int) float64 {
+	i := math.Pow(10, float64(precision))
+	scaled := num * i
+	if math.IsNaN(scaled) || math.Abs(scaled) >= 1<<53 {
+		return num
+	}
+	return float64(int(scaled+math.Copysign(0.5, scaled))) / i
+}
+
+var fixedDisagreements []string
 
 func pickName(r *hlib.Rng, used map[string]bool, pool []string) string {
 	for tries := 0; tries < 50; tries++ {
@@ -304,7 +323,10 @@ func (t *tables) addFixed(f float64, p int) {
 	}
 	k := [2]uint64{math.Float64bits(f), uint64(p)}
 	if _, ok := t.fixed[k]; !ok {
-		t.fixed[k] = math.Float64bits(sqlhook.Fixed(f, p))
+		t.fixed[k] = math.Float64bits(refFixed(f, p))
+		if got := sqlhook.Fixed(f, p); math.Float64bits(got) != t.fixed[k] && !(math.IsNaN(got) && math.IsNaN(refFixed(f, p))) {
+			fixedDisagreements = append(fixedDisagreements, fmt.Sprintf("Fixed(%v (bits %#x), %d) = %v, the rounding rule gives %v", f, math.Float64bits(f), p, got, refFixed(f, p)))
+		}
 		t.forder = append(t.forder, k)
 	}
 }
@@ -454,7 +476,7 @@ func caseScan(s *hlib.Suite, r *hlib.Rng) {
 	vs := genColumnVals(r, n, typ, mode, bad && r.Bool())
 	prec := 0
 	if r.Chance(1, 3) {
-		prec = 1 + r.Intn(4)
+		prec = precPool[r.Intn(len(precPool))]
 	}
 	if r.Chance(1, 20) {
 		prec = -1
@@ -472,7 +494,7 @@ func caseScan(s *hlib.Suite, r *hlib.Rng) {
 	// precision oracle probes: a single float value
 	if r.Chance(1, 10) {
 		vs = []driver.Value{floatPool[r.Intn(len(floatPool))]}
-		prec, co = 1+r.Intn(3), 0
+		prec, co = precPool[r.Intn(len(precPool))], 0
 	}
 	t := newTables()
 	t.addRow(vs, prec)
@@ -586,7 +608,7 @@ func caseRead(s *hlib.Suite, r *hlib.Rng) {
 	names, rows, types := genResultSet(r, inQ)
 	c := sqlterm.Config{Table: "t"}
 	if r.Chance(1, 4) {
-		c.Precision = 1 + r.Intn(3)
+		c.Precision = precPool[r.Intn(len(precPool))]
 	}
 	mixed := false
 	if r.Chance(1, 4) {
@@ -772,6 +794,13 @@ func main() {
 			caseRead(s, cr)
 		default:
 			caseRound(s, cr)
+		}
+	}
+	seenD := map[string]bool{}
+	for _, d := range fixedDisagreements {
+		if !seenD[d] && len(seenD) < 20 {
+			seenD[d] = true
+			s.Fail(s.NextID(), "ReadSQL with Precision rounds differently from the stated rule: "+d, map[string]interface{}{"kind": "fixed", "what": d, "props": []string{"C19"}}, "sql-fixed")
 		}
 	}
 	s.Finish()
